@@ -151,6 +151,13 @@ NOT_APPLICABLE = {
  "C37": "a finite matrix of real RSA/AES/x509/TCP executions; nothing in it is symbolic and with idealised crypto the result would say nothing about interoperability: enumeration of concrete runs is outside this technique (DESIGN §6)",
 }
 
+SCHED = {"C11","C18","C19","C27","C28","C34","C16"}
+for _pid,_c in CHECKS.items():
+    if "technique" not in _c:
+        _c["technique"] = ("bounded symbolic execution of go/ssa to SMT-LIB2 (cvc5 / z3): inputs, lengths, clock values and I/O segmentation are solver variables, assertions and run-time panics are solver queries"
+            + ("; goroutine interleavings (context switches at synchronisation operations, select outcomes, timer races) are decision variables of the same exploration, bounded by a preemption bound" if _pid in SCHED else "")
+            + "; sat models are replayed against the native build")
+
 def main():
     props=[json.loads(l)["id"] for l in open("/verif/properties.jsonl")]
     checks=[]
